@@ -482,12 +482,13 @@ def run_check(prop, tier, seed):
                 # confirm through the plain replay path, three times
                 confirmed = 0
                 outs = []
-                for _ in range(3):
-                    rrc, rout = replay_once(exe, prop, path, stage.get('env'))
+                nrep = stage.get('replays', 3)
+                for _ in range(nrep):
+                    rrc, rout = replay_once(exe, prop, path, stage.get('env'), timeout=stage.get('replay_timeout', 600))
                     outs.append(rout)
                     if rrc != 0:
                         confirmed += 1
-                if confirmed == 3:
+                if confirmed == nrep:
                     if f.get('crash') and not any(v[0] for v in violations):
                         minimize_crash(exe, prop, path, stage.get('env'))
                     k = matches_known(prop, path)
@@ -496,9 +497,9 @@ def run_check(prop, tier, seed):
                     else:
                         violations.append((path, f['why']))
                 else:
-                    notes.append('unconfirmed failure (%d/3 replays failed): %s %s' % (confirmed, path, f['why']))
+                    notes.append('unconfirmed failure (%d/%d replays failed): %s %s' % (confirmed, nrep, path, f['why']))
                     if confirmed > 0:
-                        violations.append((path, 'flaky (%d/3): %s' % (confirmed, f['why'])))
+                        violations.append((path, 'flaky (%d/%d): %s' % (confirmed, nrep, f['why'])))
         shutil.rmtree(tmpd, ignore_errors=True)
     ev, labels, nt, samples, subs = merge_stats(all_stats)
     for k in load_known():
